@@ -7,7 +7,9 @@
 //!   the class of the "bad ABI for intrinsic" diagnostic  == Lean `AbiParts.fromAbi`;
 //! * `lower`: the statement of that kind with distinguishable operands through the real `Lowerer`
 //!   (`IntrinsicBuilder::into_vec` + `encode_args`): which operand landed in which non-padding
-//!   parameter, or the panic  == Lean `AbiParts.intoVec`;
+//!   parameter  == Lean `AbiParts.intoVec` (since /repo 11ec667 also for signatures with padding before a
+//!   real parameter, which used to panic in `into_vec`; a panic there is a failure under the regression
+//!   signature `intrinsic-lowering-panics padding-before-parameter`);
 //! * `raise`: the compiled instruction through the real `Raiser` (`raise_intrinsic_parts`): it must come
 //!   back as the intrinsic statement (not as raw `ins_`) and compile to the same instruction again
 //!   == Lean `raiseParts (expand ..)` giving back the builder.
@@ -318,7 +320,14 @@ pub fn judge_parts(case: &Sexp, result: &Sexp) -> Option<Failure> {
     }
     if let Some(l) = field("lower") {
         if l.args()[0].as_atom() == "panic" {
+            // regression signature of the defect repaired in /repo 11ec667 (into_vec sized its buffer without the padding slots)
             return Some(Failure { signature: "intrinsic-lowering-panics padding-before-parameter".into(), what: format!("signature {} accepted by from_abi, lowering the statement panics: {}", abi_text(&abi), l.args()[1].as_atom()) });
+        }
+    }
+    // an accepted signature whose statement was lowered must give a located operand list and come back from the raiser
+    if let Some(l) = field("lower") {
+        if l.args()[0].as_atom() == "ok" && field("raise").is_none() {
+            return Some(Failure { signature: "intrinsic-instruction-not-raised-back".into(), what: format!("signature {}: no raise result: {result}", abi_text(&abi)) });
         }
     }
     if let Some(r) = field("raise") {
